@@ -41,8 +41,8 @@ THEOREMS += [
 ]
 
 ATOMIC_DYADS = ["+", "-", "*", "&", "|", "<", ">", "=", "!", ":%"]
-STRUCT_DYADS = ["#", "_", ":+", ":#", ":_", "~"]
-MONADS = ["-", "|", "*", "#", "!", "&", "?", "=", "@", ","]
+STRUCT_DYADS = ["#", "_", ":+", ":#", ":_", "~", ",", "@", "?", ":^"]
+MONADS = ["-", "|", "*", "#", "!", "&", "?", "=", "@", ",", "^", "+", "~", "_"]
 
 # verbs of the reference and the Python function the dispatch table must name for them
 EXPECT_DYADS = {"+": "eval_dyad_add", "-": "eval_dyad_subtract", "*": "eval_dyad_multiply",
@@ -214,6 +214,19 @@ def gen_cases(ctx):
     for a in U.OPERANDS[::3]:
         for b in U.OPERANDS[::3]:
             cases.append(("D", "~", a, b))
+    for a in U.OPERANDS[::2]:
+        for b in U.OPERANDS[::2]:
+            cases.append(("D", ",", a, b))
+    idxs = [U.I(n) for n in (0, 1, 2, 4)] + [U.from_py(x) for x in ([0], [1, 0], [0, 0, 0], [2, 1], [3, 7, 2])]
+    for a in seqs:
+        for b in idxs:
+            cases.append(("D", "@", a, b))
+        for b in U.ATOMS[::2] + [U.S("l"), U.S("yy"), U.S(""), U.S("ab"), U.S("o f")]:
+            cases.append(("D", "?", a, b))
+    shapes = [U.I(n) for n in (1, 2, 3, 5)] + [U.from_py(x) for x in ([3], [2, 2], [3, 3], [2, 3], [2, 2, 2], [1, 4])]
+    for a in shapes:
+        for b in U.LISTS + [U.I(1), U.Y("x"), U.R(0.5)]:
+            cases.append(("D", ":^", a, b))
     for verb in MONADS:
         for a in U.OPERANDS + counts:
             cases.append(("M", verb, a, None))
@@ -250,6 +263,26 @@ def contains(v, pred):
     return pred(v) or (v[0] == 'L' and any(contains(x, pred) for x in v[1]))
 
 
+def mixed_numeric_array(v):
+    """a regular nest of numbers holding both integers and reals: numpy stores it as one float
+    array, so the integer kind of some members is lost"""
+    if v[0] != 'L':
+        return False
+    if num_shape(v) is not None:
+        kinds = set()
+
+        def leaves(x):
+            if x[0] == 'L':
+                for y in x[1]:
+                    leaves(y)
+            else:
+                kinds.add(x[0])
+        leaves(v)
+        if kinds == {'i', 'r'}:
+            return True
+    return any(mixed_numeric_array(x) for x in v[1])
+
+
 def classify_failure(c, ref, real):
     """stable key for a failing call site: the specific known classes first (each a decidable
     predicate on verb and operands), otherwise verb + operand shape classes"""
@@ -269,7 +302,12 @@ def classify_failure(c, ref, real):
     if ar == "M" and verb == "=" and a[0] == 'L' and (
             any(x[0] == 'L' for x in a[1]) or len({x[0] for x in a[1]}) > 1):
         return "group:nested-or-mixed-elements"
-    if any(U.has_mixed_numeric_level(o) for o in ops) and real[0] != 'E' and U.veq(ref, real, kinds=False):
+    if ar == "D" and verb == "," and any(num_shape(o) is None and len(np_shape(o)) >= 2 for o in ops):
+        return "join:object-array-rank2"
+    if ar == "D" and verb == ":^" and any(o[0] == 'y' for o in ops):
+        return "reshape:symbol-atom"
+    if (any(U.has_mixed_numeric_level(o) for o in ops) or mixed_numeric_array(ref)) \
+            and real[0] != 'E' and U.veq(ref, real, kinds=False):
         return "mixed-numeric-level"
     return f"{ar}{verb}:" + ":".join(shape_class(o) for o in ops)
 
